@@ -397,6 +397,8 @@ def _strip_alt(op):
 
 
 def _fan(case, cls=False):
+    if "ops" in case:          # a fan case shrunk to the one failing history
+        return _history(case, cls)
     prefix = INITS[case["init"]] + case["prefix"]
     alpha = ALPHABETS[case["alphabet"]]()
     lo, hi = case.get("lo", 0), case.get("hi", len(alpha))
@@ -666,14 +668,13 @@ def distribution(name, case):
 
 
 def shrink(name, case):
-    if name in ("fan", "errclass"):
+    if name in ("fan", "errclass") and "ops" not in case:
         # the failing single history first
         r = CHECKS[name](case)
         if isinstance(r, dict) and r.get("mismatch") and "ops" in r and "known" not in r:
-            if name == "fan":
-                yield {"ops": r["ops"]}
+            yield {"ops": r["ops"]}
         return
-    if name != "history":
+    if name not in ("history", "fan", "errclass"):
         return
     ops = case["ops"]
     for i in range(len(ops) - 1):
@@ -687,6 +688,15 @@ def shrink(name, case):
 
 
 def escalate(name, case, rng):
+    """`errclass` (exception classes, a unit) stopped checking: is the same case also an end-to-end failure,
+    i.e. does it disagree when classes are ignored?"""
+    if name != "errclass":
+        return None
+    worker_init()
+    r = _fan(case, cls=False)
+    if isinstance(r, dict) and r.get("mismatch") and "known" not in r:
+        c = {"ops": r["ops"]} if "ops" in r else case
+        return {"check": "history" if "ops" in c else "fan", "case": c, "result": r}
     return None
 
 
